@@ -51,7 +51,25 @@ def run_check(tier):
     out = Outcome('C15', tier)
     binary, m = build_harness()
     files = build_casefile(tier)
-    ran = pmap(lambda f: e2.run_cases(binary, f[1], f[0]), files)
+    crashed = []
+    def runfile(f):
+        try: return e2.run_cases(binary, f[1], f[0])
+        except CheckError as e:
+            # the native symbolic run died (heap corruption by the code under test shows up later than the faulty write):
+            # decided by running the same permutations on the real build under AddressSanitizer
+            if 'rc=-' in str(e): crashed.append((f, str(e))); return None
+            raise
+    ran = [r for r in pmap(runfile, files) if r is not None]
+    for f, msg in crashed:
+        hdr = ''.join(x + '\n' for x in f[1].split('\n') if x.startswith(('table', 'dim'))); hit = None
+        for l in [x for x in f[1].split('\n') if x.startswith('perm ')][:12]:
+            spec = hdr + l + '\n'; import hashlib
+            path = os.path.join(VERIF, 'replay', 'C15-%s.spec' % hashlib.sha1(spec.encode()).hexdigest()[:10]); os.makedirs(os.path.dirname(path), exist_ok=True); open(path, 'w').write(spec)
+            r = run([replay_binary(), path], check=False, timeout=60, env=dict(os.environ, ASAN_OPTIONS='detect_leaks=0:exitcode=77'))
+            if r['rc'] in (3, 77) or r['rc'] < 0: hit = (path, l, (r['out'] + r['err'])[-600:]); break
+            os.remove(path)
+        if hit: out.add_violation('C15:crash:nd%d' % f[2], 'permuteDimensions corrupts memory or produces a wrong table for "%s" (%d-D): the symbolic run crashed and the real build fails under AddressSanitizer' % (hit[1], f[2]), hit[0], hit[2])
+        else: out.errors.append('symbolic run of %s crashed (%s) and no permutation of that file fails on the real build' % (f[0], msg[-120:]))
     for d, man in ran:
         for e in man:
             if e['kind'] == 'error': out.errors.append('%s: %s' % (e['case'], e['msg']))
@@ -85,9 +103,9 @@ def run_check(tier):
 def replay_binary():
     def build():
         d = scratch()
-        ref = build_ref_objects('rp15', [REPO + '/src/core/bspline.cpp', REPO + '/src/core/fitsio.cpp', REPO + '/src/core/convolve.cpp'])
+        ref = build_ref_objects('rp15', [REPO + '/src/core/bspline.cpp', REPO + '/src/core/fitsio.cpp', REPO + '/src/core/convolve.cpp'], sanitize=True)
         out = os.path.join(d, 'replay_permute')
-        run(['g++'] + GXX_FLAGS + ['-I' + VERIF + '/harness', VERIF + '/harness/replay_permute.cpp', '-o', out] + ref + ['-lcfitsio', '-lm'])
+        run(['g++'] + GXX_FLAGS + ['-fsanitize=address,undefined', '-g', '-O1', '-I' + VERIF + '/harness', VERIF + '/harness/replay_permute.cpp', '-o', out] + ref + ['-lcfitsio', '-lm'])
         return out
     return once('replay_permute', build)
 
@@ -101,10 +119,10 @@ def replay_case(case_id, ran):
                 spec = hdr + l + '\n'
                 path = os.path.join(VERIF, 'replay', 'C15-%s.spec' % hashlib.sha1(spec.encode()).hexdigest()[:10])
                 os.makedirs(os.path.dirname(path), exist_ok=True); open(path, 'w').write(spec)
-                r = run([replay_binary(), path], check=False, timeout=60)
-                return path, r['rc'] == 3, (r['out'] + r['err'])[-600:]
+                r = run([replay_binary(), path], check=False, timeout=60, env=dict(os.environ, ASAN_OPTIONS='detect_leaks=0:exitcode=77'))
+                return path, r['rc'] in (3, 77), (r['out'] + r['err'])[-600:]
     return '', False, 'case not found'
 
 def replay(path):
-    r = run([replay_binary(), path], check=False, timeout=60)
-    print(r['out'] + r['err']); return 1 if r['rc'] != 0 else 0
+    r = run([replay_binary(), path], check=False, timeout=60, env=dict(os.environ, ASAN_OPTIONS='detect_leaks=0:exitcode=77'))
+    print((r['out'] + r['err'])[-3000:]); return 1 if r['rc'] != 0 else 0
